@@ -170,11 +170,16 @@ pub fn parse_function_body(
 ) -> TyperResult<()> {
     context.revisit_function(id);
 
+    // Parse all parameters before any of them is added to the scope
+    // This is the scope the signature was parsed in so names in array sizes and default values resolve the same way
+    let mut parsed_params = Vec::with_capacity(fd.params.len());
+    for ast_param in &fd.params {
+        parsed_params.push(parse_paramtype(ast_param, context)?);
+    }
+
     let func_params = {
         let mut vec = Vec::new();
-        for ast_param in &fd.params {
-            let parsed_param = parse_paramtype(ast_param, context).unwrap();
-
+        for parsed_param in parsed_params {
             // Signature type should match reparsed type
             #[cfg(debug_assertions)]
             {
